@@ -32,6 +32,8 @@ func checkDefs() map[string]*CheckDef {
 			Runs: func(tier string) []RunSpec {
 				return []RunSpec{
 					{Name: "sort", Pkg: ioc + "/util/framework_helper", Entry: "VerifC12Sort", Params: map[string]int{"N": tierPick(tier, 5, 6)}, MustCover: []string{"sorted"}},
+					{Name: "runners-call-site", Pkg: ioc + "/app", Entry: "VerifC13", Params: map[string]int{"N": 3, "FAULTS": 0}, MustCover: []string{"all runners ok"}},
+					{Name: "loaders-call-site", Pkg: ioc + "/configure", Entry: "VerifC15Load", Params: map[string]int{"N": 3}, MustCover: []string{"several loaders"}},
 				}
 			},
 			LevelText: "Bounded symbolic model checking of the real SortOrderedComponents/orderedComponentComparator and the real stdlib sort.Slice SSA: for every multiset of up to N participants of the three classes with unconstrained 64-bit Order() values and every input order, z3 shows the output is a permutation, classes are grouped priority<ordered<plain and Order never decreases inside the first two groups.",
@@ -136,6 +138,47 @@ func checkDefs() map[string]*CheckDef {
 			LevelText: "Bounded symbolic model checking of the real Refresh/InitializeComponent/invokeInitMethods/applyPostProcess* with a ghost event log: per component config < before-init < AfterPropertiesSet < Init < after-init, each exactly once; injection points populated before the before-init callback; a dependency that does not depend back is fully initialised before its dependant's Init; lazy components initialised iff an eager one needs them.",
 			LevelNote: "Bounds: n<=2 (all points) and n<=3 (single point), lazy/eager mix; thorough n=3 single+slice. User post-processors returning nil and wrapping are outside.",
 			Technique: techDefault, DesignRef: "DESIGN.md §3 C05"},
+	)
+	app := ioc + "/app"
+	prc := ioc + "/container/processors"
+	defs = append(defs,
+		&CheckDef{ID: "C13", Title: "Runners",
+			Runs: func(tier string) []RunSpec {
+				return []RunSpec{{Name: "run", Pkg: app, Entry: "VerifC13", Params: map[string]int{"N": tierPick(tier, 3, 4), "FAULTS": 1}, MustCover: []string{"all runners ok", "runner failed", "start-up fault"}}}
+			},
+			LevelText: "Bounded symbolic model checking of the real App.run/initConfiguration/initFactory/refresh/callRunners with a logging stub factory: for every multiset of up to N runners (three classes, unconstrained 64-bit Order), every choice of failing runner and every failing start-up phase: no runner before refresh finished, each at most once and in the ordering contract's sequence, exactly once if none fails, nothing after a failing runner, run returns an error exactly when something failed.",
+			LevelNote: "Bound N runners (quick 3, thorough 4). That Refresh returning nil means every eager component is initialised is C05, composed informally. App.Run's option handling and initiate() are outside (whole-program).",
+			Technique: techDefault, DesignRef: "DESIGN.md §3 C13"},
+		&CheckDef{ID: "C14", Title: "Close",
+			Runs: func(tier string) []RunSpec {
+				return []RunSpec{{Name: "close", Pkg: app, Entry: "VerifC14", Params: map[string]int{"N": tierPick(tier, 5, 6)}, MustCover: []string{"several closers", "no closer"}, Opts: ExecOpts{Sched: "join", Races: true}}}
+			},
+			LevelText: "Bounded symbolic model checking of the real App.Close with engine goroutines, WaitGroup and channel models under the adversarial-join schedule (spawned goroutines run only when the parent blocks or returns, in every order; the parent resumes as early as possible): at the instant Close returns every closer ran exactly once and returned, for 0..N closers and every subset that fails.",
+			LevelNote: "Bound N closers (quick 5, thorough 6). Preemption inside a closer body is not explored (closer bodies share nothing but the WaitGroup). select is unsupported (inconclusive).",
+			Technique: techDefault + "; goroutine schedules as symbolic choices", DesignRef: "DESIGN.md §3 C14"},
+		&CheckDef{ID: "C15", Title: "Configuration sources",
+			Runs: func(tier string) []RunSpec {
+				return []RunSpec{
+					{Name: "options", Pkg: app, Entry: "VerifC15Options", Params: map[string]int{"K": tierPick(tier, 3, 4)}, MustCover: []string{"file added", "loader added"}},
+					{Name: "load", Pkg: ioc + "/configure", Entry: "VerifC15Load", Params: map[string]int{"N": tierPick(tier, 3, 4)}, MustCover: []string{"several loaders", "loader failed"}},
+				}
+			},
+			LevelText: "Bounded symbolic model checking of the real app.SetConfig/AddConfigLoader/SetConfigLoader options and configure.AddLoaders/SetLoaders/Initialize/loadConfigure with a recording binder: for every sequence of up to K options and every set of up to N loaders (three classes, unconstrained Order, empty or non-empty payload, one failing): every document of every source that was added reaches the binder exactly once, priority-ordered (file) loaders first, unordered ones in the order added; a failing loader fails Initialize.",
+			LevelNote: "Reduced claim: only 'the right documents reach the binder in the right order, none dropped'. viper's deep merge / last-wins, YAML, ArgsLoader rendering and file I/O (os.ReadFile is a stub) are outside - third-party code not encodable here.",
+			Technique: techDefault, DesignRef: "DESIGN.md §3 C15"},
+		&CheckDef{ID: "C16", Title: "Placeholders",
+			Runs: func(tier string) []RunSpec {
+				t := ExecOpts{Termination: true, MaxSteps: 1500000}
+				return []RunSpec{
+					{Name: "structured", Pkg: prc, Entry: "VerifC16Structured", Params: map[string]int{"L": 1, "D": 2, "V": tierPick(tier, 2, 3)}, MustCover: []string{"configured value used", "default used", "absent without default"}, Opts: t},
+					{Name: "nested", Pkg: prc, Entry: "VerifC16Nested", MustCover: []string{"nested key present", "nested key absent"}, Opts: t},
+					{Name: "cyclic", Pkg: prc, Entry: "VerifC16Cyclic", MustCover: []string{"circular reference reported as an error", "resolution terminates"}, Opts: t},
+					{Name: "total", Pkg: prc, Entry: "VerifC16Total", Params: map[string]int{"N": tierPick(tier, 5, 6), "M": 1}, MustCover: []string{"resolution terminates"}, Opts: t},
+				}
+			},
+			LevelText: "Bounded symbolic model checking of the real configQuoteAwarePostProcessors.PostProcessProperties, el.ReplaceAllContent/MatchString and strconv2.ParseAny/FormatAny: structured tags pre ${a} mid ${b[:d]} post with symbolic literal text, values and defaults (present / absent / empty map / empty list), a placeholder nested in a key, every byte string of length <= N as tag text, and configured values that refer to themselves or to each other (termination as an unwinding assertion).",
+			LevelNote: "Bounds: literal parts <=1 byte, values <=2 (3) bytes, letter-only defaults <=2 bytes (number-like, boolean-like, quoted and bracketed defaults are re-formatted by ParseAny/FormatAny, see C17), arbitrary tags <=5 (6) bytes with plain configured values. regexp is a Go-source model of the two placeholder patterns validated against the real regexp; non-string configured scalars and JSON-shaped values are outside.",
+			Technique: techDefault, DesignRef: "DESIGN.md §3 C16"},
 	)
 	m := map[string]*CheckDef{}
 	for _, d := range defs {
